@@ -36,6 +36,8 @@ kani_unit("f64", "winter-math", F64, "kani/math_f64.rs", "field::f64", [
       "forall byte strings of length <= 9: Ok(e) iff >= 8 bytes and le < M; e canonical, denotes le; exactly 8 bytes consumed; never panics"),
     H("f64_as_bytes_contract", ["C07"], ["f64::AsBytes::as_bytes", "f64::elements_as_bytes"],
       "as_bytes/elements_as_bytes expose the 8-byte raw words (pointer checks on)"),
+    H("f64_ext2_frobenius_contract", ["C08", "C07"], ["f64::ExtensibleField<2>::frobenius"],
+      "forall x0, x1: frobenius([x0, x1]) == [x0 + x1, -x1] with valid representatives; it is an involution; it fixes exactly the base field"),
     H("f64_canary_must_fail", ["C07"], [], "false claim: a+b == a-b", canary=True),
 ])
 
@@ -56,6 +58,8 @@ kani_unit("f62", "winter-math", "math/src/field/f62/mod.rs", "kani/math_f62.rs",
     H("f62_read_from_contract", ["C07", "C12", "C06"], ["f62::Deserializable::read_from"],
       "forall byte strings <= 9 bytes: Ok iff >= 8 bytes and le < M; representative < 2M; exactly 8 bytes consumed; never panics"),
     H("f62_inv_zero_contract", ["C07"], ["f62::inv"], "inv(0) == inv(M) == 0 (both representatives of zero; terminates)"),
+    H("f62_ext2_frobenius_contract", ["C08", "C07"], ["f62::ExtensibleField<2>::frobenius"],
+      "forall x0, x1: frobenius([x0, x1]) == [x0 + x1, -x1] with valid representatives; it is an involution; it fixes exactly the base field"),
     H("f62_canary_must_fail", ["C07"], [], "false claim: add(a,b) < M", canary=True),
 ])
 
@@ -78,6 +82,8 @@ kani_unit("f128", "winter-math", "math/src/field/f128/mod.rs", "kani/math_f128.r
     H("f128_add_192_contract", ["C07"], ["f128::add_192x192"], "three-limb addition == 192-bit sum modulo 2^192"),
     H("f128_sub_192_contract", ["C07"], ["f128::sub_192x192"], "three-limb subtraction == 192-bit difference modulo 2^192"),
     H("f128_sub_modulus_contract", ["C07"], ["f128::sub_modulus"], "sub_modulus(a) == a - M modulo 2^128"),
+    H("f128_ext2_frobenius_contract", ["C08", "C07"], ["f128::ExtensibleField<2>::frobenius"],
+      "forall x0, x1: frobenius([x0, x1]) == [x0 + x1, -x1] with valid representatives; it is an involution; it fixes exactly the base field"),
     H("f128_canary_must_fail", ["C07"], [], "false claim: add(a,b) >= a", canary=True),
 ])
 
@@ -98,7 +104,7 @@ PROPS["C07"] = dict(
     not_decided=[],
 )
 
-verus_unit("f64v", "f64", ["C07"], ["f64::BaseElement::new", "f64::Mul::mul", "traits::FieldElement::square"])
+verus_unit("f64v", "f64", ["C07"], ["f64::BaseElement::new", "f64::Mul::mul", "traits::FieldElement::square", "f64::exp", "f64::exp_acc", "f64::inv", "f64::exp7", "f64::Div::div", "f64::Neg::neg", "f64::StarkField::as_int", "f64::From<u32>"])
 verus_unit("f62v", "f62", ["C07"], ["f62::mul", "f62::add", "f62::sub", "f62::normalize", "f62::Add/Sub/Mul/Neg", "f62::new", "f62::as_int", "f62::double", "square", "f62::eq", "f62::exp"])
 
 for _u, _fns in (("f64x", ["f64::ExtensibleField<2>::{mul,square,mul_base,frobenius}", "f64::ExtensibleField<3>::{mul,square,mul_base,frobenius}"]),
